@@ -12,7 +12,9 @@ import (
 	"verif/scenarios/reg"
 )
 
-var sizes = []int{0, 5, 40, 3}
+// sizes[(sender+seq)%len]: includes a payload above 64 KiB (a size class of its
+// own for any implementation that treats large messages differently)
+var sizes = []int{0, 5, 40, 70000}
 
 func payload(id uint32, n int) []byte {
 	p := make([]byte, n)
@@ -22,6 +24,8 @@ func payload(id uint32, n int) []byte {
 	return p
 }
 
+var frameType uint8 = net.Post
+
 func intact(m *net.Message) bool {
 	if int(m.Header.Size) != len(m.Payload) {
 		return false
@@ -30,7 +34,7 @@ func intact(m *net.Message) bool {
 	if sender < 1 || sender > 3 || seq > 3 {
 		return false
 	}
-	if m.Header.Type != net.Post || m.Header.Service != sender || m.Header.Object != 9 || m.Header.Action != seq+50 {
+	if m.Header.Type != frameType || m.Header.Service != sender || m.Header.Object != 9 || m.Header.Action != seq+50 {
 		return false
 	}
 	want := payload(m.Header.ID, sizes[(int(sender)+int(seq))%len(sizes)])
@@ -52,13 +56,22 @@ type sink struct {
 	closed bool
 }
 
-func body(nSenders, perSender int, frag bool) func() {
+func body(nSenders, perSender int, frag bool, typ uint8, blockedFirst bool) func() {
 	return func() {
+		frameType = typ
 		ca, cb := vnet.NewPair("a", "b")
 		cb.Frag = frag
 		a := net.NewEndPoint(ca)
 		var sinks []*sink
+		var blockedQ chan *net.Message
 		b := net.EndPointFinalizer(cb, func(e net.EndPoint) {
+			if blockedFirst {
+				// a handler that selects everything but whose queue (1 slot)
+				// is never drained, registered first
+				bq := make(chan *net.Message, 1)
+				blockedQ = bq
+				e.MakeHandler(func(h *net.Header) (bool, bool) { return true, true }, bq, nil)
+			}
 			for _, s := range []*sink{
 				{name: "all", sel: func(h *net.Header) bool { return true }},
 				{name: "sender1", sel: func(h *net.Header) bool { return h.ID/100 == 1 }},
@@ -85,7 +98,7 @@ func body(nSenders, perSender int, frag bool) func() {
 			workers = append(workers, vrt.GoWorker(fmt.Sprintf("sender%d", s), func() {
 				for k := 0; k < perSender; k++ {
 					id := uint32(s*100 + k)
-					m := net.NewMessage(net.NewHeader(net.Post, uint32(s), 9, uint32(k+50), id), payload(id, sizes[(s+k)%len(sizes)]))
+					m := net.NewMessage(net.NewHeader(typ, uint32(s), 9, uint32(k+50), id), payload(id, sizes[(s+k)%len(sizes)]))
 					if err := a.Send(m); err != nil {
 						sendErr++
 					}
@@ -107,7 +120,7 @@ func body(nSenders, perSender int, frag bool) func() {
 			want := 0
 			for sd := 1; sd <= nSenders; sd++ {
 				for k := 0; k < perSender; k++ {
-					h := net.NewHeader(net.Post, uint32(sd), 9, uint32(k+50), uint32(sd*100+k))
+					h := net.NewHeader(typ, uint32(sd), 9, uint32(k+50), uint32(sd*100+k))
 					if s.sel(&h) {
 						want++
 					}
@@ -163,6 +176,14 @@ func body(nSenders, perSender int, frag bool) func() {
 			vrt.Flag("sender-overtaken")
 		}
 		vrt.Observe("order=%v", order)
+		if blockedFirst {
+			// the blocked handler has room for exactly one frame: the first arrival
+			if len(blockedQ) != 1 {
+				vrt.Failf("blocked-handler-count", "the never-drained handler holds %d frames in its 1-slot queue", len(blockedQ))
+			} else if m := <-blockedQ; len(order) > 0 && m.Header.ID != order[0] {
+				vrt.Failf("blocked-handler-first", "the never-drained handler holds frame %d, the first arrival was %d", m.Header.ID, order[0])
+			}
+		}
 		a.Close()
 		b.Close()
 		vrt.Quiesce()
@@ -178,10 +199,12 @@ func body(nSenders, perSender int, frag bool) func() {
 }
 
 func init() {
-	reg.Register(&reg.Scenario{Property: "C10", Name: "two-senders", Body: body(2, 2, false), Quick: 3, Thorough: 99,
+	reg.Register(&reg.Scenario{Property: "C10", Name: "calls-blocked-first-handler", Body: body(2, 2, false, net.Call, true), Quick: 2, Thorough: 4,
+		Doc: "2 senders x 2 Call frames; the first registered handler selects everything but never drains its 1-slot queue", MustFlag: []string{"sender-overtaken"}})
+	reg.Register(&reg.Scenario{Property: "C10", Name: "two-senders", Body: body(2, 2, false, net.Post, false), Quick: 2, Thorough: 5,
 		Doc: "2 senders x 2 frames on one endpoint, 4 handler filters on the peer", MustFlag: []string{"sender-overtaken"}})
-	reg.Register(&reg.Scenario{Property: "C10", Name: "two-senders-fragmented", Body: body(2, 2, true), Quick: 2, Thorough: 4,
+	reg.Register(&reg.Scenario{Property: "C10", Name: "two-senders-fragmented", Body: body(2, 2, true, net.Post, false), Quick: 2, Thorough: 4,
 		Doc: "2 senders x 2 frames, reads fragmented (whole / 1 byte / all but one)", MustFlag: []string{"sender-overtaken"}})
-	reg.Register(&reg.Scenario{Property: "C10", Name: "three-senders", Body: body(3, 2, false), Quick: 2, Thorough: 5,
+	reg.Register(&reg.Scenario{Property: "C10", Name: "three-senders", Body: body(3, 2, false, net.Event, false), Quick: 2, Thorough: 5,
 		Doc: "3 senders x 2 frames on one endpoint", MustFlag: []string{"sender-overtaken"}})
 }
